@@ -274,4 +274,21 @@ Section Fail.
       hop, processed by every hop before it *)
   Definition fulfill_at_sender (hops : list (fkeys * Z)) : option attribution :=
     fold_right (fun kh a => Some (process_fulfill a (fst kh) (snd kh))) None hops.
+
+  (** ** The receiving node ([ChannelManager]): a payment received through one of its PHANTOM hops is
+      claimed / failed with two layers, the phantom hop's innermost. *)
+
+  (** [claim_payment_internal]: "Create new attribution data as the final hop ... If there is a
+      phantom hop, we need to double-process." *)
+  Definition claim_attribution (incoming : fkeys) (phantom : option fkeys) : attribution :=
+    process_fulfill (option_map (fun ph => process_fulfill None ph 0%Z) phantom) incoming 0%Z.
+
+  (** [HTLCFailReason::get_encrypted_failure_packet], the [Reason] arm *)
+  Definition local_failure (incoming : fkeys) (secondary : option fkeys) (code : Z) (d : bytes) : err_packet :=
+    match secondary with
+    | Some ph =>
+        let packet := build_failure_packet ph code d 0%Z in
+        crypt_failure_packet incoming (process_failure_packet packet incoming 0%Z)
+    | None => build_failure_packet incoming code d 0%Z
+    end.
 End Fail.
